@@ -20,6 +20,16 @@ CLAIMED = {
         note="Coq kernel + vm_compute; all theorems closed under the global context (no axioms); the model of Settings.context is hand-written (tied by correspondence only); Python's contextmanager/generator semantics trusted.",
         technique="Rocq proof (induction on programs) about a hand model + exact correspondence on operation sequences",
         ref="DESIGN.md §3 C20"),
+    "C03": dict(
+        text="Theorems over the reals about the Gallina translation of every shape term regenerated from term.py on each run: membership = height x documented closed form under the term's validity predicate, range [0,height], break-point values, monotonicity of exactly the terms that declare it; over the extended reals (NaN, +-inf with IEEE special-value rules): NaN exactly when x is NaN, values at +-inf, infinite shoulders; bit-exact binary64 correspondence of the same kernels (and of a hand model of numpy.interp for Discrete) against NumPy at every parameter value and its float neighbours, +-inf, NaN, scalar/1-d/2-d; float-level range/NaN/break-point statements are searched, not proved.",
+        note="Coq kernel + vm_compute; stdlib Reals axioms; translator; exp/cos/power/libm-pow results recorded from the implementation; R/ER theorems do not speak about rounding (the float-level statements are marked partial in the evidence); Discrete is a hand model of numpy.interp.",
+        technique="Rocq proof over R and extended reals of a model regenerated from source + bit-exact correspondence (vm_compute on PrimFloat)",
+        ref="DESIGN.md §3 C03"),
+    "C11": dict(
+        text="Theorems over the reals about the translated tsukamoto kernels: membership(tsukamoto(y)) = y for 0<y<height (both directions), z monotone in y in the term's direction, z inside the support, tsukamoto defined iff the class declares itself monotonic (generated table); bit-exact binary64 correspondence incl. y next to 0, height/2, height; float-level inverse within 1e-6 h searched, not proved.",
+        note="As C03; log and libm pow results recorded from the implementation.",
+        technique="Rocq proof over R of a model regenerated from source + bit-exact correspondence (vm_compute on PrimFloat)",
+        ref="DESIGN.md §3 C11"),
 }
 PENDING_REASON = "check under construction in this round (planned in DESIGN.md §3); not claimed until its theorems and correspondence run"
 
